@@ -45,8 +45,8 @@ type TypeShape struct {
 	DetailPrints int           // Print*/Printf calls inside the Detail() region
 	DetailFields map[*types.Var]bool
 	DetailDirect map[*types.Var]bool // fields handed to a detail Print/Printf as values (not as text rendered beforehand)
-	RetNil       bool // formatter has a return nil
-	RetCause     bool // formatter has a return of the cause field
+	RetNil       bool                // formatter has a return nil
+	RetCause     bool                // formatter has a return of the cause field
 	RetOther     bool
 	RetInDetail  bool                // some return of the formatter sits inside the p.Detail() region
 	MsgTypeWhy   string              // ByMessageType: problem with the guards on the message type
